@@ -7,8 +7,13 @@ in meta.json and in seeded/RESULTS.md, and remove the worktree.
 import json, os, subprocess, sys, time, tempfile, shutil
 SEEDED = '/verif/seeded'
 names = sorted(d for d in os.listdir(SEEDED) if os.path.isdir(os.path.join(SEEDED, d)))
-if len(sys.argv) > 1:
-    names = [n for n in names if any(n.startswith(p) for p in sys.argv[1:])]
+args = sys.argv[1:]
+seeds = [None]
+if args and args[0] == '--seeds':
+    seeds = [int(x) for x in args[1].split(',')]
+    args = args[2:]
+if args:
+    names = [n for n in names if any(n.startswith(p) for p in args)]
 wt = tempfile.mkdtemp(prefix='simfim-wt-')
 os.rmdir(wt)
 subprocess.run(['git', '-C', '/repo', 'worktree', 'add', '-q', '--detach', wt, 'HEAD'], check=True)
@@ -23,17 +28,19 @@ try:
         if a.returncode != 0:
             rows.append((n, meta['property'], 'PATCH DOES NOT APPLY', 0)); continue
         meta['checks_run'], meta['detected_by'] = [], []
-        for prop in [meta['property']] + meta.get('also_check', []):
+        for prop, seed in [(p_, s_) for p_ in [meta['property']] + meta.get('also_check', []) for s_ in seeds]:
             env = dict(os.environ, FIM_REPO=wt, VERIF_EVIDENCE_DIR=scratch, VERIF_REPLAY_DIR=scratch)
+            if seed is not None:
+                env['VERIF_SEED'] = str(seed)
             t0 = time.time()
             r = subprocess.run(['/verif/check', prop], env=env, stdout=subprocess.PIPE, stderr=subprocess.STDOUT)
             out = r.stdout.decode(errors='replace')
             sig = [l for l in out.splitlines() if l.startswith('signature:')][:2]
-            meta['checks_run'].append({'cmd': 'FIM_REPO=<worktree with patch> ./check %s' % prop, 'exit': r.returncode,
+            meta['checks_run'].append({'cmd': '%sFIM_REPO=<worktree with patch> ./check %s' % ('VERIF_SEED=%d ' % seed if seed is not None else '', prop), 'exit': r.returncode,
                                        'wall_s': round(time.time() - t0, 1), 'signatures': sig})
-            if r.returncode == 1:
+            if r.returncode == 1 and prop not in meta['detected_by']:
                 meta['detected_by'].append(prop)
-            rows.append((n, prop, {0: 'MISSED', 1: 'detected', 2: 'HARNESS ERROR'}.get(r.returncode, str(r.returncode)),
+            rows.append((n, prop if seed is None else '%s@%d' % (prop, seed), {0: 'MISSED', 1: 'detected', 2: 'HARNESS ERROR'}.get(r.returncode, str(r.returncode)),
                          round(time.time() - t0, 1)))
         json.dump(meta, open(os.path.join(d, 'meta.json'), 'w'), indent=1)
 finally:
@@ -42,7 +49,7 @@ finally:
 lines = ['# Seeded changes vs. the quick tier of the checks (written by tools/run_seeded.py)', '',
          '| seeded change | check | result | wall s |', '|---|---|---|---|']
 for r in rows:
-    print('%-50s %-5s %-14s %6.1fs' % r)
+    print('%-50s %-12s %-14s %6.1fs' % r)
     lines.append('| %s | %s | %s | %.1f |' % r)
-if len(sys.argv) == 1:
+if len(sys.argv) == 1 or seeds != [None]:
     open(os.path.join(SEEDED, 'RESULTS.md'), 'w').write('\n'.join(lines) + '\n')
